@@ -87,6 +87,9 @@ def cells(tier, seed):
         if fam == "exact" and not (mb or trb or teb) and val == 0:
             # several target vectors for ONE shared set of inputs and hyperparameters (the batch enters through the targets only)
             out.append({"fam": fam, "shape": list(shp), "mb": [], "trb": [], "teb": [], "val": val, "tier": tier, "yb": [2]})
+            # ... or only by the noise / only by the mean (inputs and kernel shared)
+            out.append({"fam": fam, "shape": list(shp), "mb": [], "trb": [], "teb": [], "val": val, "tier": tier, "yb": [2], "bonly": "noise"})
+            out.append({"fam": fam, "shape": list(shp), "mb": [], "trb": [], "teb": [], "val": val, "tier": tier, "yb": [2], "bonly": "mean"})
         if shp[1] == 1 and not (mb or trb or teb) and val == 0:
             # the documented shorthand for d = 1: training and test inputs given as vectors of length n (the library adds the last dimension)
             out.append({"fam": fam, "shape": list(shp), "mb": [], "trb": [], "teb": [], "val": val, "tier": tier, "form": "vec"})
@@ -109,6 +112,10 @@ def make(cell, seed):
 
 def build(cell, seed, X, y, noise, mb):
     model = models.ExactModel(X, y, cell["fam"], seed, batch_shape=mb, noise=noise)
+    if cell.get("bonly") == "noise":
+        model.likelihood = gpytorch.likelihoods.GaussianLikelihood(batch_shape=torch.Size(cell["yb"]))
+    elif cell.get("bonly") == "mean":
+        model.mean_module = gpytorch.means.ConstantMean(batch_shape=torch.Size(cell["yb"]))
     models.perturb_(model, seed, f"c01|{cell['fam']}|{cell['val']}|{mb}")
     with torch.no_grad():  # keep noise >= ~0.05 (conditioning under control)
         for name, p in model.likelihood.named_parameters():
